@@ -66,6 +66,12 @@ type FuncV struct {
 	fn   *ssa.Function
 	bind []Value
 }
+
+// NativeFn is a function value implemented by the engine (e.g. a context's cancel function).
+type NativeFn struct {
+	name string
+	data Value
+}
 type MapV struct{ obj int }
 type ChanV struct{ obj int }
 type StructV struct{ f []Value }
@@ -245,6 +251,7 @@ type State struct {
 	threads   []*Thread // suspended goroutines (blocked or runnable)
 	resume    []*Thread // threads to return to when the running one blocks or finishes
 	started   map[int]bool
+	divCache  map[string][2]Term // IA mode: quotient/remainder symbols already introduced on this path
 }
 
 func (st *State) top() *Frame { return st.frames[len(st.frames)-1] }
@@ -337,6 +344,12 @@ func (e *Engine) clone(st *State) *State {
 		}
 		for _, t := range st.resume {
 			n.resume = append(n.resume, cp(t))
+		}
+	}
+	if st.divCache != nil {
+		n.divCache = make(map[string][2]Term, len(st.divCache))
+		for k, v := range st.divCache {
+			n.divCache[k] = v
 		}
 	}
 	if st.started != nil {
